@@ -441,7 +441,8 @@ class Ctx:
         property_id=self.pid, tier=self.tier, seed=self.seed, level='proof',
         coverage=dict(
             obligations=n_obl, discharged=n_ok,
-            checker_cmd=' && '.join(dict.fromkeys(self.checker_cmds)) or 'cd lean && lake build',
+            checker_cmd=('cd lean && ' + ' && '.join(dict.fromkeys(c[len('cd lean && '):] if c.startswith('cd lean && ') else c
+                                                             for c in self.checker_cmds))) if self.checker_cmds else 'cd lean && lake build',
             trusted_base=TRUSTED_BASE + self.assumptions,
             evaluations=self.evaluations, distinct_nontrivial=len(self.nontrivial),
             rule=rule, samples=self.samples[:10],
